@@ -156,8 +156,10 @@ def run_children(binary, args_for_range, n_items, scratch, procs=None, per_item_
     results = [None] * n_items
     if n_items == 0:
         return results
-    chunk = (n_items + procs - 1) // procs
-    ranges = [(a, min(a + chunk, n_items)) for a in range(0, n_items, chunk)]
+    # a child handles at most 150 items: worlds leave garbage behind (chain DBs on memory storage,
+    # abandoned goroutines of crashed instances) and a long-lived child grows without bound
+    chunk = max(1, min((n_items + procs - 1) // procs, 150))
+    pending = [(a, min(a + chunk, n_items)) for a in range(0, n_items, chunk)]
     running = []
 
     def start(a, b, k):
@@ -168,10 +170,11 @@ def run_children(binary, args_for_range, n_items, scratch, procs=None, per_item_
         p = subprocess.Popen([binary] + args_for_range(a, b, sdir), stdout=fo, stderr=subprocess.STDOUT, cwd=sdir, env=GOENV)
         return dict(p=p, a=a, b=b, k=k, out=outp, fo=fo, dir=sdir, t0=time.time())
 
-    for (a, b) in ranges:
-        running.append(start(a, b, 0))
     deadline_per = per_item_timeout
-    while running:
+    while running or pending:
+        while pending and len(running) < procs:
+            a, b = pending.pop(0)
+            running.append(start(a, b, 0))
         time.sleep(0.05)
         for c in list(running):
             rc = c['p'].poll()
